@@ -7,7 +7,8 @@
 (* ====================================================================== *)
 Require Import Field Ring Arith Lia List Bool Permutation ZArith QArith Qcanon.
 From TK Require Import Mat_Sums Mat_Core Mat_Qc Landmark_Model Landmark_Spec
-                       Landmark_Proof_Trace Landmark_Proof_Euclid Landmark_Proof_Main Landmark_Proof_Ratio.
+                       Landmark_Proof_Trace Landmark_Proof_Euclid Landmark_Proof_Main Landmark_Proof_Ratio
+                       Landmark_Proof_Unique.
 Import ListNotations.
 Require String.
 Import String.StringSyntax.
@@ -145,6 +146,85 @@ Proof.
            intros H. apply (f_equal this) in H. vm_compute in H. discriminate. }
   split. { intros c Hc Hk. destruct c as [|[|c]]; [reflexivity|discriminate Hk|lia]. }
   exact H10.
+Qed.
+
+(* ratio = 1 at full strength: x = (7,-7,1,-1), all four samples landmarks in the order 2,0,3,1.
+   MDS's matrix is x x^T: full orthonormal eigendecomposition with rational entries
+   (1,1,1,1)/2, (1,1,-1,-1)/2, (1,-1,-7,7)/10 for 0 and x/10 for the simple eigenvalue 100 *)
+Definition ex4_X : mat Qc := mof [[qz 7]; [qz (-7)]; [qz 1]; [qz (-1)]].
+Definition ex4_dist : mat Qc := fun a b => lm_qabs (ex4_X a 0%nat - ex4_X b 0%nat)%Qc.
+Definition ex4_lm : list nat := [2; 0; 3; 1].
+Definition ex4_W0 : mat Qc :=
+  mof [[qfrac 1 2; qfrac 1 2; qfrac 1 10; qfrac 7 10];
+       [qfrac 1 2; qfrac 1 2; qfrac (-1) 10; qfrac (-7) 10];
+       [qfrac 1 2; qfrac (-1) 2; qfrac (-7) 10; qfrac 1 10];
+       [qfrac 1 2; qfrac (-1) 2; qfrac 7 10; qfrac (-1) 10]].
+Definition ex4_w0 : vec Qc := fun c => if Nat.eqb c 3 then qz 100 else Q2Qc 0.
+(* the landmark run's answer: the eigenvector in landmark order, with the opposite sign *)
+Definition ex4_W : mat Qc := fun r c => if Nat.eqb c 3 then (- (ex4_X (nth r ex4_lm 0%nat) 0%nat / qz 10))%Qc
+                                        else Q2Qc 0.
+
+Example ratio_one_upto_sign_nonvacuous :
+  Permutation ex4_lm (seq 0 4) /\
+  (forall a b, a < 4 -> b < 4 -> ex4_dist a b = ex4_dist b a) /\
+  (exists ws, lmds_embed 4 1 keep_all ex4_lm ex4_dist ex4_W ex4_w0 ex_s = LOk ws) /\
+  lm_eig_contract 4 1 (lmds_matrix ex4_lm ex4_dist) (sel_vecs 4 1 ex4_W) (sel_vals 4 1 ex4_w0) /\
+  (exists Y0, mds_embed 4 1 ex4_W0 ex4_w0 ex_s = LOk Y0) /\
+  full_eig 4 (mds_matrix_full 4 ex4_dist) ex4_W0 ex4_w0 /\
+  (forall c j, c < 1 -> j < 4 -> j <> 4 - 1 + c -> ex4_w0 j <> ex4_w0 (4 - 1 + c)).
+Proof.
+  split.
+  { cbn [seq]. apply NoDup_Permutation.
+    - repeat constructor; cbn; intuition lia.
+    - repeat constructor; cbn; intuition lia.
+    - intros x. unfold ex4_lm. cbn [In]. lia. }
+  split.
+  { intros a b Ha Hb.
+    assert (H : forallb (fun a => forallb (fun b => qeqb (ex4_dist a b) (ex4_dist b a)) (seq 0 4)) (seq 0 4) = true)
+      by (vm_compute; reflexivity).
+    pose proof (forall_lt_by_compute 4 _ H a Ha) as H1. cbv beta in H1.
+    pose proof (forall_lt_by_compute 4 _ H1 b Hb) as H3. cbv beta in H3.
+    apply qeqb_ok in H3. exact H3. }
+  split. { apply lmds_embed_total; [|cbn; lia]. repeat constructor. }
+  split. { split; apply meq_by_compute; vm_compute; reflexivity. }
+  split. { eexists. reflexivity. }
+  split. { split; [|split]; apply meq_by_compute; vm_compute; reflexivity. }
+  intros c j Hc Hj Hne. assert (c = 0) by lia. subst c.
+  assert (Hj' : j = 0 \/ j = 1 \/ j = 2) by lia.
+  intros H. destruct Hj' as [-> | [-> | ->]]; apply (f_equal this) in H; vm_compute in H; discriminate.
+Qed.
+
+(* the same configuration for Landmark Isomap at ratio 1 (geodesics = the metric itself):
+   B B^T has the simple eigenvalue 100^2, q = s = 10 *)
+Definition ex4_w2 : vec Qc := fun c => if Nat.eqb c 3 then qz 10000 else Q2Qc 0.
+Definition ex4_G : mat Qc := fun a b => ex4_dist (lmk ex4_lm a) b.
+
+Example ratio_one_lisomap_nonvacuous :
+  Permutation ex4_lm (seq 0 4) /\ @of_nat Qc _ 4 <> 0%F /\ @two Qc _ <> 0%F /\
+  (forall a b, a < 4 -> b < 4 -> ex4_dist a b = ex4_dist b a) /\
+  (exists Y, lisomap_embed 4 4 1 ex4_G ex4_W ex4_w2 ex_s = LOk Y) /\
+  lm_eig_contract 4 1 (lisomap_sym 4 (lisomap_matrix 4 4 ex4_G)) (sel_vecs 4 1 ex4_W) (sel_vals 4 1 ex4_w2) /\
+  (exists Y0, mds_embed 4 1 ex4_W0 ex4_w0 ex_s = LOk Y0) /\
+  full_eig 4 (isomap_matrix 4 ex4_dist) ex4_W0 ex4_w0 /\
+  (forall c, c < 1 -> sel_vals 4 1 ex4_w2 c = (sel_vals 4 1 ex4_w0 c * sel_vals 4 1 ex4_w0 c)%F) /\
+  (forall c j, c < 1 -> j < 4 -> j <> 4 - 1 + c ->
+      (ex4_w0 j * ex4_w0 j)%F <> (ex4_w0 (4 - 1 + c)%nat * ex4_w0 (4 - 1 + c)%nat)%F) /\
+  (forall c, c < 1 -> (ex_s c * ex_s c)%F = sel_vals 4 1 ex4_w0 c /\ ex_s c = ex_s c /\ ex_s c <> 0%F).
+Proof.
+  destruct ratio_one_upto_sign_nonvacuous as [H1 [H2 _]].
+  split; [exact H1|]. split. { apply Qc_of_nat_neq0. lia. } split. { exact Qc_two_neq0. }
+  split; [exact H2|].
+  split. { eexists. reflexivity. }
+  split. { split; apply meq_by_compute; vm_compute; reflexivity. }
+  split. { eexists. reflexivity. }
+  split. { split; [|split]; apply meq_by_compute; vm_compute; reflexivity. }
+  split. { intros c Hc. assert (c = 0) by lia. subst c. apply qeqb_ok. vm_compute. reflexivity. }
+  split.
+  { intros c j Hc Hj Hne. assert (c = 0) by lia. subst c.
+    assert (Hj' : j = 0 \/ j = 1 \/ j = 2) by lia.
+    intros H. destruct Hj' as [-> | [-> | ->]]; apply (f_equal this) in H; vm_compute in H; discriminate. }
+  intros c Hc. assert (c = 0) by lia. subst c. split; [apply qeqb_ok; vm_compute; reflexivity|].
+  split; [reflexivity|]. intros H. apply (f_equal this) in H. vm_compute in H. discriminate.
 Qed.
 
 (* ratio = 1: all six samples are landmarks, in a shuffled order *)
